@@ -533,14 +533,28 @@ class Chopper:
         npulses:
             Number of pulses to rotate the chopper for.
         """
-        tpulse = 1.0 / pulse_frequency
         topen = disk_chopper.time_offset_open(pulse_frequency=pulse_frequency)
         tclose = disk_chopper.time_offset_close(pulse_frequency=pulse_frequency)
-        offsets = sc.arange('pulse', npulses) * tpulse
+        # topen and tclose cover one full cycle of chopper and source, that is, one
+        # pulse if the chopper rotates at least once per pulse and
+        # pulse_frequency / frequency pulses otherwise, plus the rotation before it.
+        # That extra rotation is the last rotation of the previous cycle,
+        # so it is dropped when repeating the cycle.
+        frequency = abs(disk_chopper.frequency)
+        ratio = (pulse_frequency.to(unit=frequency.unit) / frequency).value
+        pulses_per_cycle = max(round(ratio), 1)
+        n_cycles = -(-npulses // pulses_per_cycle)
+        cycle = (pulses_per_cycle / pulse_frequency).to(unit=topen.unit)
+        n_slits = disk_chopper.n_slits
+
+        def repeat(t: sc.Variable) -> sc.Variable:
+            later = (t[t.dim, n_slits:] + i * cycle for i in range(1, n_cycles))
+            return sc.concat([t, *later], t.dim)
+
         return cls(
             distance=sc.norm(disk_chopper.axle_position),
-            time_open=(offsets + topen).flatten(to=topen.dim),
-            time_close=(offsets + tclose).flatten(to=tclose.dim),
+            time_open=repeat(topen),
+            time_close=repeat(tclose),
         )
 
 
